@@ -134,7 +134,105 @@ def _env_job(svc, envs=None):
     return ("env", "", svc, "ok", costs)
 
 
+def _chain(n):
+    """a quantifier below n Boolean connectives: t_0 = forall y. 0 < y, t_k = t_(k-1) | b_k  /  t_(k-1) & a_k"""
+    t = ("forall", [("y", INT)], ("LT", ("lit", 0, INT), S("y", INT)))
+    for k in range(1, n + 1):
+        t = ("Or", t, S("b%d" % k)) if k % 2 else ("And", t, S("a%d" % k))
+    return t
+
+
+def _shared_and(n):
+    """c_k = (c_(k-1) & a_k) & (c_(k-1) & b_k): 5k+1 nodes, 2^k paths"""
+    t = ("Equals", S("x", INT), ("lit", 5, INT))
+    for k in range(1, n + 1):
+        t = ("And", ("And", t, S("a%d" % k)), ("And", t, S("b%d" % k)))
+    return t
+
+
+# (services that hand back a set per node - free variables, atoms - copy a set that grows with the depth at every level: their cost
+# on a chain over n distinct symbols is quadratic by construction, on the pinned tree too; they are judged on wide nodes only, R5)
+CHAIN_SERVICES = ["prenex", "nnf", "simplify", "substitute", "size", "get_logic", "to_smtlib (let-DAG)"]
+CHAIN_DEPTHS = (8, 16, 32, 64)
+
+
+def _chain_services():
+    sv = dict(services())
+
+    def modfn(mod, name, **kw):
+        return lambda w, it, f: it.call(it.module_global(w.repo.modules[mod], name), [f], dict(kw))
+    sv["prenex"] = modfn("pysmt.rewritings", "prenex_normal_form")
+    sv["conjunctive_partition"] = lambda w, it, f: list(it.iterate(it.call(it.module_global(w.repo.modules["pysmt.rewritings"], "conjunctive_partition"), [f])))
+    sv["propagate_toplevel"] = modfn("pysmt.rewritings", "propagate_toplevel")
+    return sv
+
+
+def _measure2(shape_t, svc, warm_t):
+    fn = _chain_services()[svc]
+
+    def call(w, it, f_):
+        warm = proc.build_shape(w, _rename(warm_t))
+        try:
+            fn(w, it, warm)
+        except AbsRaise:
+            pass
+        f = proc.build_shape(w, shape_t)
+        c0 = it.cost()
+        fn(w, it, f)
+        return it.cost() - c0
+    r = proc.run_proc(Shape(("lit", True, BOOL)), call, post=lambda w, f, v, facts: proc.ProcResult(None, "valid", v),
+                      services="full", max_paths=4, interp_kwargs={"max_steps": 30000000, "max_loop": 400000})
+    ok = [x for x in r if x.kind == "valid"]
+    if len(r) != 1 or not ok:
+        return None, "%s %s" % (r[0].kind, str(r[0].detail)[:160])
+    return ok[0].detail, None
+
+
+def _chain_job(svc):
+    costs = []
+    for n in CHAIN_DEPTHS:
+        c, why = _measure2(_chain(n), svc, _chain(3))
+        if c is None:
+            return ("chain", svc, "unsupported", why)
+        costs.append(c)
+    m1 = (costs[1] - costs[0]) / float(CHAIN_DEPTHS[1] - CHAIN_DEPTHS[0])
+    m2 = (costs[3] - costs[2]) / float(CHAIN_DEPTHS[3] - CHAIN_DEPTHS[2])
+    return ("chain", svc, "bad" if m2 > 1.3 * m1 + 2 else "ok", costs)
+
+
+def _shared_job(svc):
+    costs = []
+    for n in (4, 8, 12):
+        c, why = _measure2(_shared_and(n), svc, _shared_and(2))
+        if c is None:
+            return ("shared", svc, "unsupported", why)
+        costs.append(c)
+    # 5 more nodes per level: the cost at depth 12 stays below twice the cost at depth 8; path by path it is 16 times as large
+    return ("shared", svc, "bad" if costs[2] > 2 * costs[1] + 300 else "ok", costs)
+
+
+def run_chains(ctx):
+    rs = ctx.rule("R8", "cost on a quantifier below a chain of n connectives (linear in n) and on conjunctions that share their operands "
+                        "(follows the nodes, not the paths)")
+    res = parallel_map(_chain_job, CHAIN_SERVICES) + parallel_map(_shared_job, ["conjunctive_partition", "propagate_toplevel", "simplify", "nnf"])
+    for what, svc, verdict, data in res:
+        if verdict == "unsupported":
+            rs.unrec("%s %s: %s" % (what, svc, data))
+        elif verdict == "ok":
+            rs.ok({"service": svc, "family": what, "depths": list(CHAIN_DEPTHS) if what == "chain" else [4, 8, 12], "cost": data})
+        elif what == "chain":
+            ctx.finding(rs, "chain|%s" % svc, "%s on a quantifier below %s connectives costs %s: the cost per further connective grows "
+                        "(%.0f between depth 8 and 16, %.0f between 32 and 64) - every level walks what lies below it again"
+                        % (svc, list(CHAIN_DEPTHS), data, (data[1] - data[0]) / 8.0, (data[3] - data[2]) / 32.0), "pysmt/rewritings.py")
+        else:
+            ctx.finding(rs, "shared|%s" % svc, "%s on conjunctions sharing their operands (depth 4 / 8 / 12: 21 / 41 / 61 nodes) costs %s: "
+                        "shared nodes are expanded once per path" % (svc, data), "pysmt/rewritings.py")
+    ctx.floor(rs, 8)
+
+
 def run(ctx):
+    if ctx.want("R8"):
+        run_chains(ctx)
     if not ctx.want("R5"):
         return
     rs = ctx.rule("R5", "cost of the services: linear in the width of a node, independent of unrelated symbols of the environment")
